@@ -8,6 +8,18 @@ static DATE_REGEX: LazyLock<Regex> = LazyLock::new(|| {
     Regex::new("(\\d{4})(-|:)(\\d{1,2})(-|:)(\\d{1,2}) ?(\\d{1,2})?:?(\\d{1,2})?:?(\\d{1,2})?").unwrap()
 });
 
+/// chrono-english panics on some inputs (an out-of-range time such as `25:61` or `10.70`):
+/// a panic of the third-party parser is treated as a value that cannot be parsed
+fn parse_english_date(s: &str) -> Option<chrono::DateTime<Local>> {
+    static HOOK_LOCK: std::sync::Mutex<()> = std::sync::Mutex::new(());
+    let _guard = HOOK_LOCK.lock();
+    let hook = std::panic::take_hook();
+    std::panic::set_hook(Box::new(|_| {}));
+    let result = std::panic::catch_unwind(|| parse_date_string(s, Local::now(), Dialect::Uk));
+    std::panic::set_hook(hook);
+    result.ok().and_then(|parsed| parsed.ok())
+}
+
 pub fn parse_datetime(s: &str) -> Result<(NaiveDateTime, NaiveDateTime), String> {
     if s == "today" {
         let date = Local::now().date_naive();
@@ -94,8 +106,8 @@ pub fn parse_datetime(s: &str) -> Result<(NaiveDateTime, NaiveDateTime), String>
         None => {
             // the English date parser slices its input by bytes and panics on multi-byte characters
             if s.len() >= 5 && s.is_ascii() {
-                match parse_date_string(s, Local::now(), Dialect::Uk) {
-                    Ok(date_time) => {
+                match parse_english_date(s) {
+                    Some(date_time) => {
                         let date_time = date_time.naive_local();
                         let finish = if date_time.hour() == 0
                             && date_time.minute() == 0
